@@ -449,6 +449,52 @@ pub fn glr_grammars() -> Vec<(String, Value)> {
             vec![vec!["expression".into(), "type".into()]],
         ),
     ));
+    // 2b. the declaration/expression ambiguity with dynamic precedences on BOTH readings, one of them
+    // coming from an INLINED rule nested in a production that has its own dynamic precedence
+    // (the generator keeps, per production, the first value of greatest magnitude)
+    for (k, (outer, inner, expr_dyn)) in [(1i64, -2i64, 0i64), (-1, 3, 1), (2, -1, 1), (-3, 2, -1), (1, 2, 2), (-2, -3, -1)].iter().enumerate() {
+        let name = format!("c03glr_inl{k}");
+        let expr_body = prec("PREC_LEFT", 0, seq(vec![sym("expression"), s("*"), sym("expression")]));
+        v.push((
+            name.clone(),
+            grammar(
+                &name,
+                vec![
+                    ("program".into(), choice(vec![sym("declaration"), sym("expression")])),
+                    ("expression".into(), choice(vec![if *expr_dyn != 0 { prec("PREC_DYNAMIC", *expr_dyn, expr_body) } else { expr_body }, sym("identifier")])),
+                    ("declaration".into(), seq(vec![sym("type"), sym("declarator")])),
+                    ("declarator".into(), choice(vec![prec("PREC_DYNAMIC", *outer, sym("_pointer_declarator")), sym("identifier")])),
+                    ("_pointer_declarator".into(), prec("PREC_DYNAMIC", *inner, seq(vec![s("*"), sym("identifier")]))),
+                    ("type".into(), sym("identifier")),
+                    ("identifier".into(), pattern("[x-z]+")),
+                ],
+                vec![pattern("\\s")],
+                if k % 3 == 2 { vec![] } else { vec!["_pointer_declarator".to_string()] },
+                vec![vec!["expression".into(), "type".into()]],
+            ),
+        ));
+    }
+    // 2c. dynamic precedence declared on the START rule's own alternatives
+    for (k, (root_dyn, decl_dyn)) in [(-2i64, 1i64), (2, -1)].iter().enumerate() {
+        let name = format!("c03glr_root{k}");
+        v.push((
+            name.clone(),
+            grammar(
+                &name,
+                vec![
+                    ("program".into(), choice(vec![prec("PREC_DYNAMIC", *root_dyn, sym("declaration")), sym("expression")])),
+                    ("expression".into(), choice(vec![prec("PREC_LEFT", 0, seq(vec![sym("expression"), s("*"), sym("expression")])), sym("identifier")])),
+                    ("declaration".into(), seq(vec![sym("type"), sym("declarator")])),
+                    ("declarator".into(), choice(vec![prec("PREC_DYNAMIC", *decl_dyn, seq(vec![s("*"), sym("identifier")])), sym("identifier")])),
+                    ("type".into(), sym("identifier")),
+                    ("identifier".into(), pattern("[x-z]+")),
+                ],
+                vec![pattern("\\s")],
+                vec![],
+                vec![vec!["expression".into(), "type".into()]],
+            ),
+        ));
+    }
     // 3. an LR(2) grammar that needs a declared conflict but is unambiguous
     v.push((
         "c03glr_lr2".to_string(),
